@@ -136,7 +136,7 @@ LIB = {
     "k": "(define k0 #f) (define kn 0)",
 }
 ERRORS = ["(car 5)", "nope", "(nope 1)", "(error \"boom\" 1 'x)", "((lambda (x) x))", "(5 5)", "(+ 'a 1)", "(cdr '())",
-          "(error 'sym \"s\")", "((lambda (x y) x) 1)", "(vector-ref)", "(apply car '(1 2))", "(eval '(if))"]
+          "(error 'sym \"s\")", "((lambda (x y) x) 1)", "(set-car! 5 1)", "(apply car '(1 2))", "(eval '(if))"]
 SYNTAX_ERRORS = ["(if)", "(lambda)", "(let ((x)) x)", "(define)", "(set! 5 1)", "(quote)"]
 
 
@@ -401,3 +401,32 @@ def reduce_forms(forms):
     """candidate reductions of a form list: drop one form"""
     for i in range(len(forms)):
         yield forms[:i] + forms[i + 1:]
+
+
+def shrink_group(ctx, mod, group, profile, keep_first=0, budget=60):
+    """Cross-case failures: group[0] is the reported case, the others the cases it is
+    compared with; all have form lists of the same length.  Greedily drops form j from
+    every case while mod.cross_oracle still reports group[0]."""
+    def fails(g):
+        lines = ctx.impl(g, profile)
+        return any(i == 0 for i, _ in mod.cross_oracle(g, lines))
+    decoded = [dec(c) for c in group]
+    if any(f is None for _, f in decoded) or len({len(f) for _, f in decoded}) != 1:
+        return group
+    if not fails(group):
+        return group
+    heads = [h for h, _ in decoded]
+    forms = [f for _, f in decoded]
+    progress, spent = True, 0
+    while progress and spent < budget:
+        progress = False
+        for j in range(len(forms[0]) - 1, keep_first - 1, -1):
+            cand = [f[:j] + f[j + 1:] for f in forms]
+            g = [enc(h, f) for h, f in zip(heads, cand)]
+            spent += 1
+            if fails(g):
+                forms, progress = cand, True
+                break
+            if spent >= budget:
+                break
+    return [enc(h, f) for h, f in zip(heads, forms)]
